@@ -70,11 +70,16 @@ void c01_case(Tape& t, Ctx& ctx) {
   Spline sp_store;
   std::unique_ptr<Spline> sp_heap;
   const char* rname = "";
+  // when every boundary field is zero the overloads with the defaulted boundary argument are used half of the time
+  bool all_zero_bc = true;
+  for (int m = 1; m <= 3; ++m) for (int d = 0; d < D; ++d) if (ebc.start_velocity(d) != 0 || ebc.end_velocity(d) != 0 || ebc.start_acceleration(d) != 0 || ebc.end_acceleration(d) != 0 || ebc.start_jerk(d) != 0 || ebc.end_jerk(d) != 0) all_zero_bc = false;
+  const bool defaulted = all_zero_bc && t.flag();
+  if (defaulted) ctx.label("bc:defaulted-argument");
   switch (route) {
-    case 0: sp_heap.reset(new Spline(c.T, c.P, c.t0, lib)); rname = "ctor(durations,start)"; break;
-    case 1: sp_heap.reset(new Spline(tp, c.P, lib)); rname = "ctor(time points)"; break;
-    case 2: sp_heap.reset(new Spline()); sp_heap->update(c.T, c.P, c.t0, lib); rname = "update(durations,start)"; break;
-    case 3: sp_heap.reset(new Spline()); sp_heap->update(tp, c.P, lib); rname = "update(time points)"; break;
+    case 0: sp_heap.reset(defaulted ? new Spline(c.T, c.P, c.t0) : new Spline(c.T, c.P, c.t0, lib)); rname = "ctor(durations,start)"; break;
+    case 1: sp_heap.reset(defaulted ? new Spline(tp, c.P) : new Spline(tp, c.P, lib)); rname = "ctor(time points)"; break;
+    case 2: sp_heap.reset(new Spline()); if (defaulted) sp_heap->update(c.T, c.P, c.t0); else sp_heap->update(c.T, c.P, c.t0, lib); rname = "update(durations,start)"; break;
+    case 3: sp_heap.reset(new Spline()); if (defaulted) sp_heap->update(tp, c.P); else sp_heap->update(tp, c.P, lib); rname = "update(time points)"; break;
     default: {
       // object that previously held a different problem and has been queried
       SplineCase<D> old = gen_spline_case<D>(t, S, wellscaled_ratio(S), 8, 12);
